@@ -64,15 +64,17 @@ def obligations(tier):
     f26 = [x for x in es if any(lv in ('M', 'B') and pt.startswith('K:1+') for lv, pt in x)]
     obs.append(Ob('O4.3-mil-millones', 'fn', 'harness.C04es:validate_shapes', slices=[{'shapes': f26, 'kf26': 1}], timeout=t, finding='F26',
                   descr='region F26: a millions group headed by a bare "mil" ("mil millones", "mil once millones") is not extracted as one entity'))
+    NP = 4 if tier == 'quick' else 12
+    KX = {} if tier == 'quick' else {'k': 4000}
     for lang in ('french', 'german', 'dutch', 'italian', 'portuguese', 'spanish'):
-        obs.append(Ob('O4.1-int-value-%s' % lang[:2], 'sx', 'harness.C04x:h_int_value', twin='harness.C04x:t_int_value', slices=[{'lang': lang, 'part': i, 'nparts': 4} for i in range(4)], timeout=max(t, 600),
+        obs.append(Ob('O4.1-int-value-%s' % lang[:2], 'sx', 'harness.C04x:h_int_value', twin='harness.C04x:t_int_value', slices=[dict({'lang': lang, 'part': i, 'nparts': NP}, **KX) for i in range(NP)], timeout=max(t, 600),
                       descr='%s cardinals: __get_int_value with the real %s configuration on every token shape that the standard spellings of the sample numbers produce '
                             '(spelled by an independent speller, tokenised by the real text_number_regex, number words abstracted to their kind): the kernel returns what an '
                             'independent positional evaluator gives, for every value of the number words' % (lang.capitalize(), lang.capitalize()),
-                      bounds='shapes of ~550 boundary and sample numbers below the speller limit (10^9; pt 10^6; es 10^12); units 1..9, words 10..19 (es ..29), tens 20..90, hundreds words 100..900 symbolic',
+                      bounds='shapes of ~550 (thorough ~4100) boundary and sample numbers below the speller limit (10^9; pt 10^6; es 10^12); units 1..9, words 10..19 (es ..29), tens 20..90, hundreds words 100..900 symbolic',
                       encodes=[N + 'BaseNumberParser.__get_int_value'],
                       stubs=['number words -> placeholder keys with symbolic values added to a copy of the real cardinal map', 'Decimal -> exact proxy']))
-        obs.append(Ob('O4.3-api-%s' % lang[:2], 'fn', 'harness.C04x:validate', slices=[{'lang': lang}], timeout=max(t, 600),
+        obs.append(Ob('O4.3-api-%s' % lang[:2], 'fn', 'harness.C04x:validate', slices=[dict({'lang': lang}, **KX)], timeout=max(t, 600),
                       descr='composition check (not a verdict): every sample number, spelled independently, comes back from recognize_number as one entity with its value; its shape is in the verified set',
                       encodes=[N + 'BaseNumberParser._text_number_parse']))
     for lang, fid, what in (('french', 'F27', 'plural "cents" and "un million ..."'), ('italian', 'F28', 'accented "-tré"'), ('portuguese', 'F29', '"catorze"'), ('spanish', 'F26', '"mil ... millones"')):
